@@ -276,6 +276,7 @@ def run(ctx):
         c02a(ctx, tu)
         C05.c05a(ctx, tu)   # cost (C02.c): the selection compares exactly these values
         C05.c05b(ctx, tu)   # order = maximum over the named sequences
+        C05.c05c(ctx, tu)   # what a matched step leaves in front of later candidates (retire_until)
         c02b(ctx, tu)
         n += c02d(ctx, tu)
         units.append({"unit": tu.name, "functions": len(tu.fns)})
